@@ -404,7 +404,7 @@ RULE = (
 def build(tier):
     E.setup()
     return CheckSpec(
-        [Sub("histories", run_case, strategy=_history, budget={"quick": 120, "thorough": 3000}, max_wall={"quick": 60, "thorough": 2400}, workers={"quick": 12, "thorough": 16})],
+        [Sub("histories", run_case, strategy=_history, budget={"quick": 120, "thorough": 9000}, max_wall={"quick": 60, "thorough": 3600}, workers={"quick": 12, "thorough": 16})],
         RULE,
         assumptions=[
             "crash = the process dies between two intercepted file-system effects of aiocoap.oscore; metadata reordering on power loss (rename durable before data) is not modelled",
